@@ -33,9 +33,9 @@ def run_witnesses(rep, pid):
     res = []
     for f in files:
         head = open(f).read(400)
-        if ("expect: %s " % pid) not in head and ("expect-silent: %s" % pid) not in head:
+        if ("expect: %s " % pid) not in head and not re.search(r"expect-silent:[^\n]*\b%s\b" % pid, head):
             continue
-        st, why = wit.run_witness(f)
+        st, why = wit.run_witness(f, pid=pid if "expect-silent:" in head else None)
         name = os.path.relpath(f, VERIF)
         res.append({"witness": name, "result": st, "why": why})
         if st in ("fired", "silent"):
